@@ -2,6 +2,7 @@ package main
 
 import (
 	"context"
+	"go/token"
 	"encoding/json"
 	"flag"
 	"fmt"
@@ -505,6 +506,13 @@ func (cr *checkRun) report(start time.Time, loadS float64, reports []*FuncReport
 			if strings.HasSuffix(j.Name, "/"+suffix) {
 				return reason
 			}
+			// kind@"source snippet": matches an obligation of that kind whose source line contains the snippet
+			if i := strings.Index(suffix, "@"); i > 0 && j.Kind == suffix[:i] && j.ob != nil {
+				snip := strings.Trim(suffix[i+1:], "\"")
+				if line := sourceLine(cr.prog, j.ob.Pos); line != "" && strings.Contains(strings.ReplaceAll(line, " ", ""), strings.ReplaceAll(snip, " ", "")) {
+					return reason
+				}
+			}
 		}
 		return ""
 	}
@@ -700,4 +708,29 @@ func truncate(s string, n int) string {
 		return s[:n] + "…"
 	}
 	return s
+}
+
+
+var srcCache = map[string][]string{}
+var srcMu sync.Mutex
+
+func sourceLine(prog *Program, p token.Pos) string {
+	if !p.IsValid() {
+		return ""
+	}
+	ps := prog.SSA.Fset.Position(p)
+	srcMu.Lock()
+	defer srcMu.Unlock()
+	lines, ok := srcCache[ps.Filename]
+	if !ok {
+		data, err := os.ReadFile(ps.Filename)
+		if err == nil {
+			lines = strings.Split(string(data), "\n")
+		}
+		srcCache[ps.Filename] = lines
+	}
+	if ps.Line-1 < len(lines) && ps.Line >= 1 {
+		return lines[ps.Line-1]
+	}
+	return ""
 }
